@@ -1465,6 +1465,12 @@ func (e *CoreExtension) filterLast(value interface{}, args ...interface{}) (inte
 			return rv.Index(rv.Len() - 1).Interface(), nil
 		}
 		return nil, nil
+	case reflect.Map:
+		// Last value in the fixed key order (the counterpart of first on maps)
+		if keys := sortedMapKeys(rv); len(keys) > 0 {
+			return rv.MapIndex(keys[len(keys)-1]).Interface(), nil
+		}
+		return nil, nil
 	}
 
 	return nil, fmt.Errorf("cannot get last element of %T", value)
